@@ -42,8 +42,19 @@ POSITIONS = {
     "call-result": "@guppy\ndef mk(v: {A}) -> {A}:\n    return v\n\n@guppy\ndef main(v: {A}, e: {E}) -> {E}:\n    w: {E} = mk(v)\n    return w\n",
     "reassign": "@guppy\ndef main(v: {A}, e: {E}) -> {E}:\n    w: {E} = e\n    w = v\n    return w + e\n",
 }
+# operators that convert their operands to float themselves ({ONE} = the value 1 written in v's own type);
+# only meaningful for the expected type float
+ONE = {"nat": "nat(1)", "int": "1", "float": "1.0"}
+FLOAT_ONLY = {
+    "truediv-by-one": "@guppy\ndef main(v: {A}, e: {E}) -> {E}:\n    return v / {ONE}\n",
+    "truediv-by-one-plus": "@guppy\ndef main(v: {A}, e: {E}) -> {E}:\n    return v / {ONE} + e\n",
+    "truediv-by-one-aug": "@guppy\ndef main(v: {A}, e: {E}) -> {E}:\n    w = v / {ONE}\n    w += e\n    return w\n",
+    "truediv-reflected": "@guppy\ndef main(v: {A}, e: {E}) -> {E}:\n    return e + v / {ONE}\n",
+}
+POSITIONS.update(FLOAT_ONLY)
 # positions where the program's result is (coerced v) combined with e == 0
-ZERO_COMBINED = {"operand-left", "operand-right", "augassign", "reassign"}
+ZERO_COMBINED = {"operand-left", "operand-right", "augassign", "reassign", "truediv-by-one-plus", "truediv-by-one-aug",
+                 "truediv-reflected"}
 NEGATED = {"operand-sub-right"}
 
 
@@ -53,7 +64,9 @@ def _fbits(x):
 
 def eval_case(item):
     pos, a, e = item
-    src = POSITIONS[pos].replace("{A}", a).replace("{E}", e)
+    if pos in FLOAT_ONLY and e != "float":
+        return {"kind": "skip"}
+    src = POSITIONS[pos].replace("{A}", a).replace("{E}", e).replace("{ONE}", ONE[a])
     o, mod = gload.run_src(src)
     out = {"kind": "", "dis": []}
     if o.kind == "crash":
@@ -127,7 +140,7 @@ def run(ctx):
                 samples.append({"position": it[0], "actual": it[1], "expected": it[2], "values_checked": r["n"]})
     return {
         "evaluations": evals, "distinct_nontrivial": nontriv,
-        "rule": "12 positions x {nat,int,float}^2; narrowing must be rejected; accepted widenings evaluated on the boundary grids",
+        "rule": "16 positions x {nat,int,float}^2; narrowing must be rejected; accepted widenings evaluated on the boundary grids",
         "samples": samples, "programs": len(items), "accepted": acc, "narrowing_rejected": rej_ok,
         "widening_rejected_open": rej_open,
     }
